@@ -46,6 +46,12 @@ TASK_DEADLINE_S = int(os.environ.get("PYVC_TASK_DEADLINE_S", "420"))
 
 def _child(fid, conn):
     try:
+        import faulthandler
+        import signal
+        faulthandler.register(signal.SIGUSR1, all_threads=False)      # kill -USR1 <pid> prints where a worker is
+    except Exception:
+        pass
+    try:
         conn.send(_worker(fid))
     except Exception:
         conn.send({"fid": fid, "obls": [], "error": None, "crash": traceback.format_exc()[-3000:], "paths": 0, "time": 0.0, "assumptions": [], "sha": "", "kind": "?"})
@@ -80,6 +86,8 @@ def run_pool(fids, nproc):
                     results[fid] = {"fid": fid, "obls": [], "error": None, "crash": f"worker died (exit code {p.exitcode})", "paths": 0, "time": 0.0, "assumptions": [], "sha": "", "kind": "?"}
                 p.join(5)
                 done.append(fid)
+                if os.environ.get("PYVC_TIMING"):
+                    sys.stderr.write(f"[timing] {fid} attempt {attempt} {time.time() - t0:.1f}s\n")
             elif not p.is_alive():
                 p.join()
                 if rd.poll(0.2):
@@ -95,6 +103,7 @@ def run_pool(fids, nproc):
                 p.kill()
                 p.join()
                 done.append(fid)
+                sys.stderr.write(f"[deadline] {fid} killed after {TASK_DEADLINE_S} s (attempt {attempt})\n")
                 if attempt < 2:
                     pending.append((fid, attempt + 1))
                 else:
